@@ -26,6 +26,7 @@ type Event struct {
 	Fam    int           `json:"fam,omitempty"`    // REQUESTED-ADDRESS-FAMILY 4/6, 0 = absent
 	TCP    bool          `json:"tcp,omitempty"`
 	As     string        `json:"as,omitempty"` // authenticate as this user instead of the client's own
+	Fail   string        `json:"fail,omitempty"` // Allocate: "gen" = the relay address generator fails, "quota" = the quota handler refuses
 }
 
 // Class renders the event without computed values, for signatures.
@@ -44,6 +45,9 @@ func (e Event) Class() string {
 		}
 		if e.TCP {
 			s += ",tcp"
+		}
+		if e.Fail != "" {
+			s += ",refused-by-" + e.Fail
 		}
 
 		return s + ")"
@@ -169,6 +173,14 @@ func (x *Exec) Apply(ev Event) *Viol { //nolint:gocyclo,cyclop,maintidx,gocognit
 		}
 		isRetx := a != nil && tx != nil && *tx == a.Tx
 		gen0 := w.GenCalls
+		if c.Nonce == "" && ev.Fail != "" {
+			c.Request(wire.Refresh, nil, nil) // obtain a nonce first: the injected refusal must meet the authenticated request
+		}
+		if a == nil && ev.Fail == "gen" {
+			w.GenFailNext = 1
+		}
+		w.QuotaDeny = a == nil && ev.Fail == "quota"
+		defer func() { w.GenFailNext, w.QuotaDeny = 0, false }()
 		res := c.Request(wire.Allocate, tx, func(b *wire.B) {
 			proto := uint32(17) << 24
 			if ev.TCP {
@@ -213,6 +225,14 @@ func (x *Exec) Apply(ev Event) *Viol { //nolint:gocyclo,cyclop,maintidx,gocognit
 		if granted == 0 {
 			if res.Resp != nil && res.Resp.Class == wire.Success {
 				return x.viol("resp", "allocate-lifetime0-success", ev, respStr(res))
+			}
+
+			return nil
+		}
+		if ev.Fail != "" {
+			// refused by the operator's generator / quota handler: an error, and nothing exists afterwards
+			if res.Resp == nil || res.Resp.Class != wire.Error {
+				return x.viol("resp", "refused-allocate-not-an-error", ev, respStr(res))
 			}
 
 			return nil
